@@ -769,6 +769,9 @@ func funcSplit(v, x any) any {
 	if !ok {
 		return &func0TypeError{"split", x}
 	}
+	if s == "" {
+		return []any{} // same as the division operator
+	}
 	ss := strings.Split(s, t)
 	xs := make([]any, len(ss))
 	for i, s := range ss {
@@ -2214,6 +2217,9 @@ func toFloat(x any) (float64, bool) {
 		return bigToFloat(x), true
 	case json.Number:
 		v, err := x.Float64()
+		if errors.Is(err, strconv.ErrRange) {
+			return v, true // saturates to the infinities, like parseNumber
+		}
 		return v, err == nil
 	default:
 		return 0.0, false
